@@ -322,7 +322,7 @@ def drive_history(ctx: Ctx) -> None:
 PARTS: list[Part] = [
     hyp_part("hints", strat_hints, check_hints, {"quick": 250, "thorough": 4000},
              {"quick": 4, "thorough": 16}),
-    hyp_part("orders", strat_orders, check_orders, {"quick": 250, "thorough": 5000},
+    hyp_part("orders", strat_orders, check_orders, {"quick": 450, "thorough": 5000},
              {"quick": 6, "thorough": 16}),
     custom_part("history", drive_history, check_history, {"quick": 4, "thorough": 16}),
 ]
